@@ -414,4 +414,35 @@ CHECKS = {
         "note": "Volumes of 5x4x3 voxels; the destination info has the "
                 "source's geometry (documented precondition).",
     },
+    "C19": {
+        "engine": "E-STATE", "level": "model_checking",
+        "technique": "explicit-state BFS over sequences of the real CLI "
+                     "commands (in-process main(argv) + exit handlers), "
+                     "states = canonical workspace content, with "
+                     "differential (all-in-one vs steps), idempotence and "
+                     "completeness oracles",
+        "text": "For 7 synthetic volumes (2-3 scales; isotropic, "
+                "anisotropic in z and in x, float with header slope, label "
+                "volume as compressed segmentation) x 4 option sets "
+                "(default, --flat --no-gzip, --no-gzip, --sharding 1,1,0) x "
+                "full/mmap x explicit/auto downscaling method, all "
+                "sequences of the 8 commands (generate-info, "
+                "generate-scales-info, volume-to-precomputed, "
+                "compute-scales, all-in-one pyramid, prepare + "
+                "convert-chunks, scale-stats) up to depth 6 (quick) / 9 "
+                "(thorough) are explored breadth-first from an empty "
+                "workspace, deduplicated on the canonical content (file "
+                "listing, parsed info/transform JSON, dtype/shape/hash of "
+                "every decoded scale of three dataset directories); failed "
+                "commands are transitions too. Checked on every "
+                "transition: status 0 implies every chunk of every scale "
+                "the command is responsible for exists and decodes; a "
+                "data-writing command repeated on its own output leaves the "
+                "decoded contents unchanged; scale-stats changes nothing; "
+                "and the all-in-one state equals the step-by-step state "
+                "(info and voxels of every scale).",
+        "note": "Volumes of at most 130x20x40 voxels; the all-in-one "
+                "command has no --sharding option, so that equality is "
+                "checked for unsharded option sets only.",
+    },
 }
